@@ -1,15 +1,11 @@
 (* Concrete instance of the unified client model: RSCP frames, CRC, Rijndael-256/CBC, request validation *)
 From Coq Require Import List NArith ZArith Bool.
 Import ListNotations.
-Require Import Codec CRC Frame Rijndael Validate Client.
+Require Import Codec CRC Frame Rijndael Cipher Validate Client.
 Local Open Scope N_scope.
 
-Definition iv0 : list N := repeat 255 32.
-Definition key_pad (k : list N) : list N := firstn 32 (k ++ repeat 255 32).
 
 Definition c_encode (crc : bool) (ts : Z * Z) (ms : list message) : list N := pad32 (frame (fst ts) (snd ts) crc ms).
-Definition c_enc (ks : list N) (iv p : list N) : list N * list N := cbc_enc (S (length p / 32)) ks iv p.
-Definition c_dec (ks : list N) (iv c : list N) : list N * list N := cbc_dec (S (length c / 32)) ks iv c.
 
 (* what Client.receive does with the result of rscp.Read on the plaintext received so far *)
 Definition header_ok (p : list N) : bool :=
